@@ -715,6 +715,7 @@ def prop_order(ch, ctx):
         region = s.region(True)
         _, Pb, y = solve(ctx, s, 'bubP', T, site='order.bubP')
         _, Pd, x = solve(ctx, s, 'dewP', T, site='order.dewP')
+        region = s.region(True)       # carries fb=1 when the dew-pressure solve went through the bracketed fallback
         _reject_bad_dew(ctx, s, 'bubP', T, Pb, y)
         _reject_bad_dew(ctx, s, 'dewP', T, Pd, x)
         require_box(ctx, s, T, Pb); require_box(ctx, s, T, Pd)
